@@ -31,7 +31,7 @@ func TestMain(m *testing.M) {
 	os.Exit(code)
 }
 
-var keys = []string{"f", "t", "message", "x", "y"}
+var keys = []string{"f", "t", "message", "x", "y", "u"}
 
 type op struct {
 	Text string // the script
@@ -76,6 +76,10 @@ func allOps() []op {
 		for _, v := range []any{int64(7), "var", nil} {
 			out = append(out, op{Text: fmt.Sprintf("%s = %s\nadd_key(%s)", k, valText(v), k), Kind: "addvar", K: k, V: v})
 		}
+		// a value argument that has no value: an attribute expression, a variable holding one, a collection containing itself
+		for _, pre := range []string{"set_tag(%s, cfg.host)", "v = cfg.host\nset_tag(%s, v)", "l = [1]\nl[0] = l\nset_tag(%s, l)", "add_key(%s, cfg.host)", "v = cfg.host\nadd_key(%s, v)", "l = [1]\nl[0] = l\nadd_key(%s, l)"} {
+			out = append(out, op{Text: fmt.Sprintf(pre, k), Kind: "valueless", K: k})
+		}
 		out = append(out, op{Text: fmt.Sprintf("set_tag(%s)", k), Kind: "settag", K: k})
 		out = append(out, op{Text: fmt.Sprintf("set_tag(%s, \"tv\")", k), Kind: "settagv", K: k, V: "tv"})
 		out = append(out, op{Text: fmt.Sprintf("drop_key(%s)", k), Kind: "drop", K: k})
@@ -111,10 +115,10 @@ func load(t rk.Failer, text string) *plrt.Script {
 	return s
 }
 
-var reader = "probe(\"r\", f, t, message, x, y)"
+var reader = "probe(\"r\", f, t, message, x, y, u)"
 
 func newPoint() *input.Point {
-	return impl.NewPoint("m", map[string]string{"t": "tagval"}, map[string]any{"f": int64(1), "message": "msg s"})
+	return impl.NewPoint("m", map[string]string{"t": "tagval", "u": "second tag"}, map[string]any{"f": int64(1), "message": "msg s"})
 }
 
 func clonePoint(p *input.Point) *input.Point {
